@@ -257,6 +257,7 @@ type Shape struct {
 	Class   string // shape class for finding keys
 	Quick   bool
 	GobOnly bool
+	NoJSON  bool // a value JSON cannot carry unchanged (ill-formed UTF-8, repeated language tags, an explicit "und" beside an untagged entry)
 	Build   func(g *Gen) reflect.Value
 }
 
@@ -394,6 +395,10 @@ func Shapes(k Kind) []Shape {
 			{Name: "nlv-subtags", Class: "lang2+-subtags", Build: func(*Gen) reflect.Value {
 				return val(nlv("zh-Hant-TW", "你好", "en-x-pirate", "Ahoy", "de-DE-u-co-phonebk", "Hallo", "x-klingon", "nuqneH", "es-419", "Hola"))
 			}},
+			{Name: "nlv-bracket", Class: "lang2+-bracket", Build: func(*Gen) reflect.Value { return val(nlv("-", "Bob[en]", "fr", "Robert[-]")) }},
+			{Name: "nlv-und+untagged", Class: "lang2+-und", NoJSON: true, Build: func(*Gen) reflect.Value { return val(nlv("und", "explicit und", "-", "untagged", "fr", "tagged")) }},
+			{Name: "nlv-repeated-tag", Class: "lang2+-repeated", NoJSON: true, Build: func(*Gen) reflect.Value { return val(nlv("en", "first", "fr", "autre", "en", "second")) }},
+			{Name: "nlv-ill-formed", Class: "lang2+-bytes", NoJSON: true, Build: func(*Gen) reflect.Value { return val(nlv("-", "caf\xe9 \x85 it\x92s", "en", "cut caf\xc3")) }},
 			{Name: "nlv-untagged+tagged", Class: "lang2+-untagged", Build: func(*Gen) reflect.Value { return val(nlv("-", "plain", "fr", "bonjour")) }},
 			{Name: "nlv-tagged+untagged", Class: "lang2+-untagged", Build: func(*Gen) reflect.Value { return val(nlv("en", "hello", "-", "plain")) }},
 		}
@@ -401,6 +406,10 @@ func Shapes(k Kind) []Shape {
 		return []Shape{
 			{Name: "utc-sec", Class: "time", Quick: true, Build: func(*Gen) reflect.Value { return val(T1) }},
 			{Name: "zone+02", Class: "time-zone", Build: func(*Gen) reflect.Value { return val(T1.In(zoneP2)) }},
+			// offsets that are not whole hours: +05:45, and a local-mean-time style offset with seconds (RFC 3339 cannot write those)
+			{Name: "zone+05:45", Class: "time-zone-odd", Build: func(*Gen) reflect.Value { return val(T1.In(time.FixedZone("NPT", 5*3600+45*60))) }},
+			{Name: "zone+00:19:32", Class: "time-zone-odd", Build: func(*Gen) reflect.Value { return val(T1.In(time.FixedZone("AMT", 19*60+32))) }},
+			{Name: "zone-00:00:01", Class: "time-zone-odd", Build: func(*Gen) reflect.Value { return val(T1.In(time.FixedZone("x", -1))) }},
 			{Name: "pre-epoch", Class: "time-pre-epoch", Build: func(*Gen) reflect.Value { return val(time.Date(1969, 7, 20, 20, 17, 40, 0, time.UTC)) }},
 			{Name: "epoch", Class: "time-epoch", Build: func(*Gen) reflect.Value { return val(time.Unix(0, 0).UTC()) }},
 			{Name: "far-future", Class: "time-far", Build: func(*Gen) reflect.Value { return val(time.Date(2999, 12, 31, 23, 59, 59, 0, time.UTC)) }},
@@ -596,6 +605,9 @@ func ShapesFor(f Field, codec Codec, quickOnly bool) []Shape {
 	var out []Shape
 	for _, s := range Shapes(f.Kind) {
 		if s.GobOnly && codec != Gob {
+			continue
+		}
+		if s.NoJSON && codec == JSON {
 			continue
 		}
 		if quickOnly && !s.Quick {
@@ -998,5 +1010,138 @@ func ListForms(s *Struct, fn func(Recipe)) {
 			}}})
 		}
 		fn(Recipe{Struct: s, TypeName: s.SpecificName(), Sets: sets})
+	}
+}
+
+// TypeNames yields, for struct s typed with each of the given vocabulary names, the level-1 values (q shapes) and every pair of
+// instant / duration properties: a codec that special-cases one type name, or derives one property from two others, shows here.
+func TypeNames(s *Struct, names []string, codec Codec, fn func(Recipe)) {
+	var timeFields []Field
+	for _, f := range s.PropertyFields() {
+		if f.Kind == KTime || f.Kind == KDuration {
+			timeFields = append(timeFields, f)
+		}
+	}
+	for _, name := range names {
+		name := name
+		if name == s.SpecificName() {
+			continue // already the name every other family uses
+		}
+		Level1(s, codec, true, func(r Recipe) {
+			r.TypeName = name
+			fn(r)
+		})
+		for i := 0; i < len(timeFields); i++ {
+			for j := i + 1; j < len(timeFields); j++ {
+				si, sj := ShapesFor(timeFields[i], codec, true), ShapesFor(timeFields[j], codec, true)
+				if len(si) == 0 || len(sj) == 0 {
+					continue
+				}
+				// the second instant later than the first
+				later := sj[0]
+				if timeFields[j].Kind == KTime {
+					later = Shape{Name: "later", Class: "time", Build: func(*Gen) reflect.Value { return val(T1.Add(150 * time.Minute)) }}
+				}
+				fn(Recipe{Struct: s, TypeName: name, Sets: []Set{{timeFields[i], si[0]}, {timeFields[j], later}}})
+			}
+		}
+	}
+}
+
+// RelatedIdentity yields values in which an IRI-bearing property is RELATED to the value's own id: equal to it, the id plus a
+// query / a fragment / a path segment, or a prefix of the id (the id is the property plus "?page=2").
+func RelatedIdentity(s *Struct, fn func(Recipe)) {
+	const base = "https://example.com/related/outbox"
+	idField := s.Field("ID")
+	if idField == nil {
+		return
+	}
+	rel := []struct{ name, id, prop string }{
+		{"same-as-id", base, base},
+		{"id+query", base, base + "?page=2"},
+		{"id+fragment", base, base + "#main-key"},
+		{"id+segment", base, base + "/sub"},
+		{"prefix-of-id(query)", base + "?page=2", base},
+		{"prefix-of-id(fragment)", base + "#part", base},
+		{"scheme-variant-of-id", base, "http" + base[len("https"):]},
+	}
+	for _, f := range s.Fields {
+		if f.Kind != KIRI && f.Kind != KItem && f.Kind != KItems {
+			continue
+		}
+		if f.Term == "id" || f.Term == "type" {
+			continue
+		}
+		for _, r := range rel {
+			f, r := f, r
+			idShape := Shape{Name: "id:" + r.name, Class: "related", Build: func(*Gen) reflect.Value { return val(ap.IRI(r.id)) }}
+			propShape := Shape{Name: r.name, Class: "related-" + r.name, Build: func(g *Gen) reflect.Value {
+				switch f.Kind {
+				case KIRI:
+					return val(ap.IRI(r.prop))
+				case KItem:
+					v := reflect.New(tItem).Elem()
+					v.Set(reflect.ValueOf(ap.IRI(r.prop)))
+					return v
+				}
+				return val(ap.ItemCollection{ap.IRI(r.prop), g.IRI()})
+			}}
+			fn(Recipe{Struct: s, TypeName: s.SpecificName(), NoID: true, Sets: []Set{{*idField, idShape}, {f, propShape}}})
+		}
+	}
+}
+
+// DeepChain yields a value of struct s that embeds, through the given item property, a chain of depth embedded objects, the
+// innermost one carrying a marker text.
+func DeepChain(s *Struct, via string, depth int) (Recipe, bool) {
+	f := s.Field(via)
+	if f == nil || (f.Kind != KItem && f.Kind != KItems) {
+		return Recipe{}, false
+	}
+	shape := Shape{Name: fmt.Sprintf("chain[%d]", depth), Class: "deep-chain", Build: func(g *Gen) reflect.Value {
+		var inner ap.Item = &ap.Object{ID: g.IRI(), Type: ap.NoteType, Name: nlv("-", "innermost")}
+		for d := 1; d < depth; d++ {
+			o := &ap.Object{ID: g.IRI(), Type: ap.NoteType}
+			if d%2 == 0 {
+				o.InReplyTo = inner
+			} else {
+				o.Attachment = inner
+			}
+			inner = o
+		}
+		if f.Kind == KItems {
+			return val(ap.ItemCollection{inner})
+		}
+		v := reflect.New(tItem).Elem()
+		v.Set(reflect.ValueOf(inner))
+		return v
+	}}
+	return Recipe{Struct: s, TypeName: s.SpecificName(), Sets: []Set{{*f, shape}}}, true
+}
+
+// CollidingIDs returns pairs of different, perfectly ordinary ids that collide under a common 32-bit hash (FNV-1a, FNV-1, CRC-32
+// IEEE and Castagnoli, Adler-32, djb2, the 31-multiplier hash) of a common normal form of the id (raw, lower-cased, scheme
+// stripped, scheme and fragment stripped). An index, cache or "seen" set keyed by such a hash without comparing the ids treats
+// them as one identity. The table is generated by cmd/verif-gencollisions (birthday search) and checked in.
+func CollidingIDs() [][2]ap.IRI { return collidingIDs }
+
+// Collisions yields values whose list properties hold both members of a CollidingIDs pair (as IRIs, and as IRI + embedded object).
+func Collisions(fn func(Recipe)) {
+	for _, name := range []string{"Object", "Activity", "OrderedCollection", "Actor"} {
+		s := ByName(name)
+		for _, f := range s.ItemFields() {
+			if f.Kind != KItems {
+				continue
+			}
+			for k, p := range CollidingIDs() {
+				f, p, k := f, p, k
+				fn(Recipe{Struct: s, TypeName: s.SpecificName(), Sets: []Set{{f, Shape{Name: fmt.Sprintf("colliding#%d", k), Class: "colliding-ids", Build: func(g *Gen) reflect.Value {
+					if k%2 == 0 {
+						return val(ap.ItemCollection{p[0], g.IRI(), p[1]})
+					}
+					return val(ap.ItemCollection{p[0], &ap.Object{ID: p[1], Type: ap.NoteType}})
+				}}}}})
+			}
+		}
 	}
 }
